@@ -134,7 +134,14 @@ def run():
     # ---------------------------------------------------------------- constants
     extra = []
     if not replay:
-        extra = [dict(ckind='str', text=t, src='fixed') for t in ['', 'abc', 'a"b<c>&d', "it's", 'tab\there', 'nön-äscii ✓', ' lead and trail ']]
+        extra = [dict(ckind='str', text=t, src='fixed') for t in ['', 'abc', 'a"b<c>&d', "it's", 'tab\there', 'nön-äscii ✓', ' lead and trail ',
+                 'line\nbreak', 'cr\rhere', 'HTTP/1.1 200 OK\r\n', '\r', '\n', '\t', 'x\ty\nz\r', 'trailing newline\n', 'astral 😀 𝔘',
+                 '&amp; looks like an entity', ']]> <!-- -->', 'both \' and "', '  ', 'a' * 300]]
+        # "strings verbatim": seeded random strings over an alphabet with every character an XML attribute
+        # value has to protect (quotes, markup, CR / LF / TAB, non-ASCII, astral)
+        alpha = ['a', 'B', '7', ' ', '_', '"', "'", '<', '>', '&', '\n', '\r', '\t', 'é', '中', '😀', ';', '#']
+        for _ in range(60 if ck.quick else 1500):
+            extra.append(dict(ckind='str', text=''.join(ck.rng.choice(alpha) for _ in range(ck.rng.randint(1, 12))), src='random'))
         extra += [dict(ckind='bool', text='true', src='fixed'), dict(ckind='bool', text='false', src='fixed')]
         # aliases to fixed-width unsigned types (alias to alias too)
         for t in ('guint8', 'guint16', 'guint32', 'guint64'):
